@@ -40,7 +40,7 @@ def apply_mutant(d, m):
     with open(path) as f:
         s = f.read()
     if s.count(m['old']) < 1:
-        raise SystemExit('mutant %s: pattern not found in %s' % (m['id'], m['file']))
+        raise LookupError('mutant %s: pattern not found in %s' % (m['id'], m['file']))
     s = s.replace(m['old'], m['new'], m.get('count', 1))
     with open(path, 'w') as f:
         f.write(s)
@@ -69,6 +69,10 @@ def main(argv):
         try:
             apply_mutant(d, m)
             rc, out, dt = run_check(pid, d)
+        except LookupError as err:
+            print(err)
+            results.append((m['id'], 'BAD-PATTERN'))
+            continue
         finally:
             shutil.rmtree(d, ignore_errors=True)
         sigs = [l.strip() for l in out.splitlines() if l.startswith('  deviation')]
